@@ -64,6 +64,13 @@ type Reg struct {
 type Req struct {
 	DomFail bool   `json:"dom_fail,omitempty"` // the domain provider answers this request's calls with an error
 	Kind    string `json:"kind"`               // attestation attestations proposal randao slotsel syncsel aggregate syncroots contributions registration
+	// transient failures of the (remote) signer while THIS request is handled, by account key:
+	BatchFail  []uint64 `json:"batch_fail,omitempty"`  // multi-signature calls answer with a nil entry for this member (it can sign alone)
+	BatchOnce  []uint64 `json:"batch_fail_once,omitempty"` // ... a nil entry in the FIRST multi-signature call of this request that includes the member, a signature in later ones
+	BatchZero  []uint64 `json:"batch_zero,omitempty"`  // ... with an all-zero signature object for this member
+	BatchErr   []uint64 `json:"batch_err,omitempty"`   // a multi-signature call made ON this account fails as a whole
+	SingleOnce []uint64 `json:"single_fail_once,omitempty"` // only the first single-signature call made on this account for this request fails
+	SingleFail []uint64 `json:"single_fail,omitempty"` // the single-signature methods of this account fail (batch calls sign for it)
 	Batch   []int  `json:"batch"`              // positions in Pool, in request order (single-account kinds use Batch[0])
 
 	Slot  uint64   `json:"slot,omitempty"`
@@ -104,6 +111,11 @@ type Input struct {
 	Concurrent bool  `json:"concurrent,omitempty"`
 
 	Tags []string `json:"tags,omitempty"`
+}
+
+// missKeys: the members that the (first) multi-signature call including them has no signature for.
+func (q Req) missKeys() []uint64 {
+	return append(append(append([]uint64{}, q.BatchFail...), q.BatchOnce...), q.BatchZero...)
 }
 
 // steps are the requests of the session in order.
@@ -290,7 +302,7 @@ func runInput(t *testing.T, in Input, level zerolog.Level) []Observed {
 
 // runStep makes one request (in is a single-request view of the session) to the session's service.
 func runStep(t *testing.T, svc *standardsigner.Service, dp *domainProvider, rec *recorder, pool []e2wtypes.Account, bases []*base, in Input) Observed {
-	env := &stepEnv{fail: in.DomFail}
+	env := &stepEnv{fail: in.DomFail, batchFail: keySet(in.BatchFail), batchZero: keySet(in.BatchZero), batchOnce: keySet(in.BatchOnce), batchErr: keySet(in.BatchErr), singleFail: keySet(in.SingleFail), singleOnce: keySet(in.SingleOnce)}
 	ctx := withStepEnv(context.Background(), env)
 	accounts := make([]e2wtypes.Account, len(in.Batch))
 	for i, p := range in.Batch {
@@ -501,7 +513,9 @@ func term(id uint64, in Input, obs Observed) string {
 	for i, r := range obs.Roots {
 		roots[i] = hexN(r)
 	}
-	return Record("c_id", N(id), "c_chain", chain, "c_svc", svc, "c_dom_fail", Bool(in.DomFail), "c_req", in.reqTerm(),
+	return Record("c_id", N(id), "c_chain", chain, "c_svc", svc, "c_dom_fail", Bool(in.DomFail),
+		"c_batch_fail", nList(in.missKeys()), "c_batch_err", nList(in.BatchErr), "c_single_fail", nList(append(append([]uint64{}, in.SingleFail...), in.SingleOnce...)),
+		"c_req", in.reqTerm(),
 		"c_out", out, "c_verified", List(ver), "c_roots", List(roots))
 }
 
@@ -528,6 +542,9 @@ func TestC06(t *testing.T) {
 		if i%sessionEvery == sessionEvery-1 {
 			// every sessionEvery-th input is a session of several requests on one service instance
 			ins = append(ins, genSession(r, i/sessionEvery))
+		} else if i%partialEvery == partialEvery-5 {
+			// partial failures of the remote signer (a batch call leaves out one member, ...)
+			ins = append(ins, genPartial(r, i/partialEvery))
 		} else {
 			ins = append(ins, gen(r, i-i/sessionEvery))
 		}
@@ -552,6 +569,7 @@ func TestC06(t *testing.T) {
 		for j, obs := range all {
 			v := in.view(j)
 			tags := append(append(append([]string{}, in.Tags...), derivedTags(v)...), sessionTags(in, j)...)
+			tags = append(tags, partialTags(v)...)
 			col.Count("kind:" + v.Kind)
 			col.Count("outcome:" + v.Kind + ":" + obs.Outcome)
 			for _, tg := range tags {
